@@ -1,6 +1,7 @@
 (** Runner entry for the overlay model: decodes an operation list, runs overlay model and
     plain-tree specification in lock-step, prints per-step results and views and the raw
     containers at the end. *)
+From Coq Require Import Ascii.
 From stdpp Require Import gmap strings list.
 From MV Require Import Base.Sx IH5.Overlay.
 
@@ -52,10 +53,48 @@ Fixpoint run_steps (R : stack) (T : tree) (ops : list op) : list sx :=
         :: run_steps R' T' rest
   end.
 
+(** Second case form, [(raw (container ...))]: containers given directly in the raw
+    representation (oldest first, entries as [of_cont] prints them); the result is the view
+    under the repaired and under the pinned child-resolution rule.  Used to compare the read
+    path alone with [IH5InnerNode._children] on stacks the write path does not produce. *)
+Definition seg_of_string (s : string) : seg :=
+  match s with String "@"%char r => (true, r) | _ => (false, s) end.
+
+Definition sx_rpath (x : sx) : option path :=
+  option_map (λ l : list string, rev (map seg_of_string l)) (sx_strings x).
+
+Definition sx_entry (x : sx) : option (path * rentry) :=
+  match x with
+  | L [p; A "DEL"] => option_map (λ q, (q, RDel)) (sx_rpath p)
+  | L [p; A "D"; A v] => option_map (λ q, (q, RData v)) (sx_rpath p)
+  | L [p; A "G"; A "T"] => option_map (λ q, (q, RGroup true)) (sx_rpath p)
+  | L [p; A "G"; A "F"] => option_map (λ q, (q, RGroup false)) (sx_rpath p)
+  | _ => None
+  end.
+
+Definition sx_cont (x : sx) : option cont :=
+  option_map (λ l : list (path * rentry), (list_to_map l : cont)) (sx_map sx_entry x).
+
+Fixpoint mk_stack (i : nat) (cs : list cont) (acc : stack) : stack :=
+  match cs with [] => acc | c :: r => mk_stack (S i) r ((i, c) :: acc) end.
+
+Definition viewmap_pinned (R : stack) : tree :=
+  map_imap (λ p _, vget_pinned R p) (all_keys R).
+
 Definition run_c01 (x : sx) : sx :=
-  match sx_map sx_op x with
-  | None => sx_bad "c01 ops"
-  | Some ops =>
-      let R := run_m ops in
-      L [L (run_steps m_init ∅ ops); L (map (λ ic : nat * cont, of_cont ic.2) (rev R))]
+  match x with
+  | L [A "raw"; cs] =>
+      match sx_map sx_cont cs with
+      | None => sx_bad "c01 raw"
+      | Some conts =>
+          let R := mk_stack 0 conts [] in
+          L [of_tree (viewmap R); of_tree (viewmap_pinned R)]
+      end
+  | _ =>
+      match sx_map sx_op x with
+      | None => sx_bad "c01 ops"
+      | Some ops =>
+          let R := run_m ops in
+          L [L (run_steps m_init ∅ ops); L (map (λ ic : nat * cont, of_cont ic.2) (rev R))]
+      end
   end.
